@@ -5,13 +5,16 @@
 //     ExponentialSpringForce -- posed around touching, designed approach / rebound / slip / spin velocities;
 //   two-point family (gen/forcegen.h, read-only): TwoPointLinearSpring / Damper / ConstantForce, LinearBushing with random
 //     attachment bodies (Ground and the same body twice included), stations, frames, parameters, all 18 mobilizers;
-//   cable family: CableSpring over a CablePath between two bodies, optionally through a via point on a third body.
+//   cable family: CableSpring over a CablePath (CableTrackerSubsystem) between two stations on random bodies (Ground and the same
+//     body twice included) through 0-3 ViaPoint obstacles on random bodies, each enabled or disabled by default; taut and slack.
 // Oracle (V): with the body forces (tau_b, F_b) at the body origins p_b (Ground row included) contributed by the element
 // alone: sum F_b = 0, sum (tau_b + p_b x F_b) = 0, and no mobility forces.  p_b from the matter subsystem.
 #include "pbt.h"
 #include "mbgen.h"
 #include "contactgen.h"
 #include "forcegen.h"
+#include <iostream>
+#include <sstream>
 using namespace SimTK;
 
 namespace {
@@ -83,6 +86,7 @@ void twoPointCase(const pbt::Tape& t, pbt::Ctx& ctx) {
 }
 
 void cableCase(const pbt::Tape& t, pbt::Ctx& ctx) {
+    struct Quiet { std::streambuf* old; std::ostringstream sink; Quiet() : old(std::cout.rdbuf()) { std::cout.rdbuf(sink.rdbuf()); } ~Quiet() { std::cout.rdbuf(old); } } quiet;   // CablePath.cpp prints unconditional debug text to cout
     pbt::Reader g(t[0]); g.skip(32);
     mbgen::Options opt; opt.maxBodies = 5;
     mbgen::ModelSpec spec = mbgen::decodeModel(t, 3, (int)t.size() - 3, g, opt);
@@ -90,38 +94,53 @@ void cableCase(const pbt::Tape& t, pbt::Ctx& ctx) {
     uint32_t wa = r.w(), wb = r.w(), wv = r.w();
     int b1 = int(wa % uint32_t(nb + 1)), b2 = int(wb % uint32_t(nb + 1)); if (wa == 0 && wb == 0) { b1 = 0; b2 = nb; }
     if (b1 == b2 && (wb >> 8) % 8u != 0) b2 = (b1 + 1 + int((wb >> 11) % uint32_t(nb))) % (nb + 1);
-    Vec3 s1 = mbgen::readVec3(r, -0.8, 0.8), s2 = mbgen::readVec3(r, -0.8, 0.8), s3 = mbgen::readVec3(r, -0.8, 0.8);
+    Vec3 s1 = mbgen::readVec3(r, -0.8, 0.8), s2 = mbgen::readVec3(r, -0.8, 0.8);
     if (b1 == b2 && (s1 - s2).norm() < 0.1) s2 = s1 + Vec3(0.3, 0.2, -0.1);
-    bool via = (wv & 1u) != 0; int b3 = int((wv >> 1) % uint32_t(nb + 1));
+    // 0-3 via points, each on a random body (Ground, the end bodies and repeats included), each enabled or disabled by default
+    struct Via { int body; Vec3 station; bool disabled; }; std::vector<Via> vias;
+    const int nvia = int(wv % 4u);
+    for (int i = 0; i < 3; ++i) { uint32_t w = r.w(); Vec3 st = mbgen::readVec3(r, -0.8, 0.8); if (i < nvia) vias.push_back({int((w >> 1) % uint32_t(nb + 1)), st, (w & 1u) != 0}); }
     Real k = r.logreal(0.1, 100), x0 = r.real(0, 2), c = r.chance(3, 4) ? 1.0 : 0.0; c *= r.uniform(0, 2);
-    if (ctx.wantDesc) { ctx.desc.precision(17); ctx.desc << "CableSpring b1=" << b1 << " s1=" << s1 << " b2=" << b2 << " s2=" << s2 << " via=" << via << " b3=" << b3 << " s3=" << s3 << " k=" << k << " x0=" << x0 << " c=" << c << "\n"; spec.describe(ctx.desc); }
+    if (ctx.wantDesc) { ctx.desc.precision(17); ctx.desc << "CableSpring origin body " << b1 << " station " << s1 << ", termination body " << b2 << " station " << s2 << ", k=" << k << " slack length=" << x0 << " c=" << c << "\n";
+        for (auto& v : vias) ctx.desc << "  via point on body " << v.body << " station " << v.station << (v.disabled ? " DISABLED by default" : "") << "\n"; spec.describe(ctx.desc); }
     const std::string name = "CableSpring"; ctx.label("element:" + name); mbgen::labelModel(ctx, spec);
     mbgen::Built m(spec);
     CableTrackerSubsystem cables(m.sys); CablePath path(cables, m.mb[b1], s1, m.mb[b2], s2);
-    if (via) CableObstacle::ViaPoint vp(path, m.mb[b3], s3);
+    for (auto& v : vias) { CableObstacle::ViaPoint vp(path, m.mb[v.body], v.station); if (v.disabled) vp.setDisabledByDefault(true); }
     CableSpring spring(m.forces, path, k, x0, c);
     m.finish(spec); m.setState(spec); State& s = m.state;
     m.sys.realize(s, Stage::Position);
-    {   // degenerate geometry (zero-length segments have no direction) is outside the documented domain
-        Vec3 p1 = m.mb[b1].findStationLocationInGround(s, s1), p2 = m.mb[b2].findStationLocationInGround(s, s2), p3 = m.mb[b3].findStationLocationInGround(s, s3);
-        if ((!via && (p1 - p2).norm() < 1e-3) || (via && ((p1 - p3).norm() < 1e-3 || (p2 - p3).norm() < 1e-3))) { ctx.reject("zero-length-cable-segment"); return; }
+    int nActiveVia = 0, nDisabled = 0; std::vector<char> carries(nb + 1, 0); carries[b1] = carries[b2] = 1;
+    {   // degenerate geometry (zero-length segments between consecutive ACTIVE points have no direction) is outside the documented domain
+        std::vector<Vec3> pts; pts.push_back(m.mb[b1].findStationLocationInGround(s, s1));
+        for (auto& v : vias) { if (v.disabled) { ++nDisabled; continue; } ++nActiveVia; carries[v.body] = 1; pts.push_back(m.mb[v.body].findStationLocationInGround(s, v.station)); }
+        pts.push_back(m.mb[b2].findStationLocationInGround(s, s2));
+        for (size_t i = 0; i + 1 < pts.size(); ++i) if ((pts[i] - pts[i + 1]).norm() < 1e-3) { ctx.reject("zero-length-cable-segment"); return; }
     }
     try { path.solveForInitialCablePath(s); } catch (const std::exception&) { ctx.reject("cable-initialisation-failed"); return; }
     m.sys.realize(s, Stage::Dynamics);
     Vector_<SpatialVec> bf; Vector_<Vec3> pf; Vector mf; spring.calcForceContribution(s, bf, pf, mf);
     Real L = 1, vmax = 1; for (int b = 1; b <= nb; ++b) { L = std::max(L, m.mb[b].getBodyOriginLocation(s).norm() + 1.5); SpatialVec V = m.mb[b].getBodyVelocity(s); vmax = std::max(vmax, V[1].norm() + 1.5 * V[0].norm()); }
-    Verdict v = judge(ctx, name, m.matter, s, bf, mf, k * (4 * L + x0) * (1 + c * 4 * vmax) * L);
-    ctx.label(name + (v.active ? "/taut" : "/slack")); ctx.label(name + (via ? "/via-point" : "/straight"));
+    const Real tension = spring.getTension(s);
+    Verdict v = judge(ctx, name, m.matter, s, bf, mf, k * (4 * L * (2 + nActiveVia) + x0) * (1 + c * 4 * vmax) * L);
+    // a taut cable must load something unless all its points sit on one body (where the pulls cancel)
+    int nCarrying = 0; for (int b = 0; b <= nb; ++b) nCarrying += carries[b];
+    if (!ctx.failed && tension > 0 && nCarrying >= 2 && !v.active) ctx.fail(name + ": tension " + S(tension) + " > 0 but no body receives a force");
+    ctx.label(name + (tension > 0 ? "/taut" : "/slack")); ctx.label(name + (nActiveVia ? "/via-point" : "/straight"));
+    if (!vias.empty()) ctx.label("cable:via-points"); ctx.label("cable:via-points:" + std::to_string(vias.size()));
+    if (nDisabled) ctx.label(std::string("cable:disabled-via-between-active") + (tension > 0 ? "" : "(slack)"));
+    if (nDisabled && nActiveVia) ctx.label("cable:disabled-and-enabled-vias-mixed");
     bool distinct = b1 != b2 && b1 != 0 && b2 != 0;
     ctx.label(name + (b1 == b2 ? "/same-body-twice" : (b1 == 0 || b2 == 0) ? "/with-Ground" : "/two-moving-bodies"));
-    for (int b = 0; b <= nb && !ctx.failed; ++b) if (b != b1 && b != b2 && !(via && b == b3) && (bf[b][0].norm() + bf[b][1].norm()) != 0) ctx.fail(name + ": body " + std::to_string(b) + " is not on the cable but receives a force");
+    // a body carrying no origin, termination or ACTIVE obstacle (disabled via points do not count) receives nothing
+    for (int b = 0; b <= nb && !ctx.failed; ++b) if (!carries[b] && (bf[b][0].norm() + bf[b][1].norm()) != 0) ctx.fail(name + ": body " + std::to_string(b) + " carries no active point of the cable but receives a force");
     ctx.nontrivial(v.active && distinct);
 }
 
 void property(const pbt::Tape& t, pbt::Ctx& ctx) {
     static const int famOnly = getenv("C13_FAMILY") ? atoi(getenv("C13_FAMILY")) : -1;
     pbt::Reader sel(t[0]); sel.skip(50); int w = sel.pick(8);
-    int fam = w < 4 ? 0 : w < 7 ? 1 : 2;    // 1/2 contact, 3/8 two-point, 1/8 cable
+    int fam = w < 4 ? 0 : w < 6 ? 1 : 2;    // 1/2 contact, 1/4 two-point, 1/4 cable
     if (famOnly >= 0) fam = famOnly;
     ctx.label(fam == 0 ? "family:contact" : fam == 1 ? "family:two-point" : "family:cable");
     if (fam == 0) contactCase(t, ctx); else if (fam == 1) twoPointCase(t, ctx); else cableCase(t, ctx);
@@ -133,7 +152,7 @@ pbt::Config config() {
     c.rule = "rapidcheck tape -> one interaction element on an mbgen tree: contact family (cgen: 8 element kinds, surfaces around touching, designed velocities), two-point family (forcegen: TwoPointLinearSpring/Damper/ConstantForce, LinearBushing; Ground and same-body-twice attachments; all mobilizers) or CableSpring (straight / via point). Non-trivial: the element applies a non-zero force and its two attachment bodies are distinct and not Ground; distinct by tape hash.";
     c.assumptions = {"body origin locations reported by the matter subsystem are correct (C03/C05)", "Force::calcForceContribution / MultibodySystem::getRigidBodyForces return the element's contribution at body origins in Ground, Ground row included (documented)"};
     c.requiredLabels = {"element:HuntCrossleyForce", "element:ElasticFoundationForce", "element:CCS-HertzCircular", "element:CCS-ElasticFoundation", "element:CCS-BrickHalfSpace", "element:SmoothSphereHalfSpaceForce", "element:ExponentialSpringForce",
-                        "element:TwoPointLinearSpring", "element:TwoPointLinearDamper", "element:TwoPointConstantForce", "element:LinearBushing", "element:CableSpring", "LinearBushing/same-body-twice", "CableSpring/via-point", "eff:mesh-mesh/active"};
+                        "element:TwoPointLinearSpring", "element:TwoPointLinearDamper", "element:TwoPointConstantForce", "element:LinearBushing", "element:CableSpring", "LinearBushing/same-body-twice", "CableSpring/via-point", "eff:mesh-mesh/active", "cable:via-points", "cable:disabled-via-between-active", "cable:disabled-and-enabled-vias-mixed", "CableSpring/same-body-twice", "CableSpring/slack"};
     return c;
 }
 } // namespace
